@@ -467,3 +467,46 @@ pub fn gen_c14(o: &mut Out, tier: &str, seed: u64) {
         o.op("domain.ae", &format!("kdf ae signer {} {}", hex(&sig), hex(&ps)));
     }
 }
+
+pub fn gen_c18(o: &mut Out, tier: &str, seed: u64) {
+    let mut r = Rng::new(seed, "c18");
+    let n = if tier == "thorough" { 300 } else { 8 };
+    // scalars: random, small (many zero bytes), one byte set, l-1
+    // scalars: random; with many zero bytes; with exactly one zero byte; l-1. (Values such as 1 are avoided:
+    // their byte pattern coincides with constants of the zeroized public point, which the storage
+    // inspection could not tell apart from a surviving secret.)
+    let mut scalars: Vec<Vec<u8>> = vec![Scalar::from(0x0102030405060708u64).to_bytes().to_vec(),
+        Scalar::from(0xa1b2c3d4u64).to_bytes().to_vec(), (-Scalar::ONE).to_bytes().to_vec(), Scalar::from(u64::MAX).to_bytes().to_vec()];
+    for i in 0..n {
+        let mut b = rand_scalar(&mut r).to_bytes().to_vec();
+        if i % 2 == 0 { let k = r.below(31) as usize; b[k] = 0; }
+        scalars.push(b);
+    }
+    for s in scalars.iter() {
+        for how in ["decoded", "from", "cloned", "keypair-clone"] { o.op_exp(&format!("drop.secret.{}", how), "wiped", &format!("drop secret {} {}", how, hex(s))); }
+        for how in ["new", "cloned"] { o.op_exp(&format!("drop.keypair.{}", how), "wiped", &format!("drop keypair {} {}", how, hex(s))); }
+        for how in ["decoded", "new", "cloned", "add", "sub", "mul"] { o.op_exp(&format!("drop.opening.{}", how), "wiped", &format!("drop opening {} {}", how, hex(s))); }
+        o.op("debug.secret", &format!("debug secret {}", hex(s)));
+        o.op("debug.opening", &format!("debug opening {}", hex(s)));
+        o.op_exp("debug.keypair", "clean", &format!("debug keypair {}", hex(s)));
+        // a decoded key pair (public half derived)
+        let sc = Scalar::from_bytes_mod_order(s.as_slice().try_into().unwrap());
+        if sc != Scalar::ZERO {
+            let mut kb = (sc.invert() * *H).compress().to_bytes().to_vec();
+            kb.extend(s);
+            o.op_exp("drop.keypair.decoded", "wiped", &format!("drop keypair decoded {}", hex(&kb)));
+        }
+    }
+    for _ in 0..n {
+        let sl = 32 + r.below(32) as usize;
+        let seedb = r.bytes(sl);
+        o.op_exp("drop.secret.derived", "wiped", &format!("drop secret derived {}", hex(&seedb)));
+        o.op_exp("drop.keypair.derived", "wiped", &format!("drop keypair derived {}", hex(&seedb)));
+        o.op_exp("drop.aekey.derived", "wiped", &format!("drop aekey derived {}", hex(&seedb)));
+        let k = r.bytes(16);
+        for how in ["decoded", "from", "cloned"] { o.op_exp(&format!("drop.aekey.{}", how), "wiped", &format!("drop aekey {} {}", how, hex(&k))); }
+        o.op("debug.aekey", &format!("debug aekey {}", hex(&k)));
+    }
+    let mut k = vec![0u8; 16]; k[3] = 9;
+    for how in ["decoded", "from", "cloned"] { o.op_exp(&format!("drop.aekey.{}", how), "wiped", &format!("drop aekey {} {}", how, hex(&k))); }
+}
